@@ -340,7 +340,121 @@ def claim_eq(cx, res, kf):
         res.vacuity.append(("Cons::eq walk: %s reached" % k, n > 0))
 
 
+def claim_into_iter(cx, res, kf):
+    """The consuming iterator (C15: "yields each element once with the tail attached to the last"): `Cons::into_iter` starts at the
+    cell itself; `IntoIter::next` from any cursor state: exhausted -> None; at a cell -> (car, None) and the cursor moves to the next
+    cell when the cdr is a pair, else (car, Some(cdr)) and the iterator is exhausted."""
+    from . import confirm as CF
+    onm = CF.confirm(("conswalk",), res)
+    VAL = cx.enums["Value"]
+    CONS = VAL.index("Cons")
+    key = fn = None
+    for n, f in cx.fns.items():
+        if "lexpr/src/cons.rs" in n and n.endswith("::next") and "IntoIter" in f.local_ty.get(f.args[0], ""):
+            key, fn = n, f
+    if fn is None:
+        res.error = "cons::IntoIter::next not found"
+        return
+    eng = C.make_engine(cx, [], loop_mode="cut", timeout_s=60, max_paths=500)
+    info = {}
+
+    def h_take(e, st, fr, callee, argv, m):
+        cur = e.load(st, argv[0].addr)
+        e.store(st, argv[0].addr, EnumV("Option", 0, {}))
+        st.events.append(("take",))
+        return cur
+
+    def h_into_pair(e, st, fr, callee, argv, m):
+        c = argv[0]
+        if not (isinstance(c, Agg) and c.name == "Cons"):
+            raise Unsupported("into_pair of %r" % (c,))
+        return Agg("tuple", None, [c.fields[0], c.fields[1]])
+    eng.stubs = [(re.compile(r"^(?:std::option::)?Option::<Cons>::take$"), h_take), (re.compile(r"^Cons::into_pair$"), h_into_pair)] + S.COMBINATOR_STUBS + S.CORE_STUBS
+
+    def init(e, st, fr):
+        cell, d, c = src_cell(e, "cur")
+        some = z3.Bool("cursor_some")
+        st.heap["it"] = Agg("struct", "IntoIter", [S.mk_option(some, cell)])
+        fr.locals[fn.args[0]] = Ref(("H", "it"))
+        info.update(d=d, some=some)
+        return [c]
+    try:
+        terms = eng.explore(key, init)
+    except Unsupported as e:
+        res.error = "unsupported: cons::IntoIter::next: %s" % e
+        return
+    res.absorb(eng)
+    d, some = info["d"], info["some"]
+    seen = {"none": 0, "more": 0, "last": 0}
+    for t in terms:
+        pc = list(t.state.pc)
+        if t.kind != "RETURN" or not isinstance(t.value, EnumV):
+            res.must_be_unsat(pc, "cons::IntoIter::next: ends in %s" % t.kind, onm)
+            continue
+        rd_ = K.concrete(t.value.discr)
+        it = t.state.heap.get("it")
+        cur = it.fields[0] if isinstance(it, Agg) else None
+        cd = K.concrete(cur.discr) if isinstance(cur, EnumV) else None
+        why = None
+        if rd_ == 0:
+            seen["none"] += 1
+            res.must_be_unsat(pc + [some], "the consuming iterator ends although a cell is left", onm)
+            continue
+        item = t.value.variants[1][0]
+        if not (isinstance(item, Agg) and len(item.fields) == 2):
+            res.must_be_unsat(pc, "the consuming iterator yields %r" % (item,), onm)
+            continue
+        car, rest = item.fields
+        res.must_be_unsat(pc + [z3.Not(some)], "the consuming iterator yields an item although it is exhausted", onm)
+        if not same(eng, car, Opaque("Value", "cur.car")):
+            why = "the item is %r, not the car of the current cell" % (car,)
+        rk = K.concrete(rest.discr) if isinstance(rest, EnumV) else None
+        if why is None and rk == 0:
+            seen["more"] += 1
+            res.must_be_unsat(pc + [d != CONS], "the consuming iterator drops a tail that is not a pair (yields (car, None) for the last cell)", onm)
+            nxt = cur.variants.get(1, [None])[0] if cd == 1 else None
+            if not (cd == 1 and isinstance(nxt, Agg) and same(eng, nxt.fields[0], Opaque("Value", "cur.next.car"))):
+                why = "after an inner cell the cursor is %r, not the next cell" % (cur,)
+        elif why is None and rk == 1:
+            seen["last"] += 1
+            res.must_be_unsat(pc + [d == CONS], "the consuming iterator ends at a cell whose cdr is a pair (rest of the list dropped)", onm)
+            tail = rest.variants[1][0]
+            if not (isinstance(tail, EnumV) and z3.eq(z3.simplify(tail.discr), z3.simplify(d))):
+                why = "the tail attached to the last element is %r, not the cdr of the last cell" % (tail,)
+            elif cd != 0:
+                why = "the iterator is not exhausted after the last cell"
+        elif why is None:
+            why = "the item's tail slot is %r" % (rest,)
+        if why:
+            res.must_be_unsat(pc, "cons::IntoIter::next: " + why, onm)
+    for k, n in seen.items():
+        res.vacuity.append(("consuming iterator: %s reached" % k, n > 0))
+    # Cons::into_iter starts at the cell itself
+    for n, f in cx.fns.items():
+        if "lexpr/src/cons.rs" in n and n.endswith("::into_iter") and f.ret_ty.strip().endswith("IntoIter") and len(f.args) == 1 \
+                and f.local_ty.get(f.args[0], "").strip() in ("Cons", "cons::Cons"):
+            eng2 = C.make_engine(cx, [], loop_mode="cut", timeout_s=60, max_paths=100)
+            eng2.stubs = S.COMBINATOR_STUBS + S.CORE_STUBS
+            terms = eng2.explore(n, lambda e, st, fr, f=f: fr.locals.__setitem__(f.args[0], Opaque("Cons", "self")) or [])
+            res.absorb(eng2)
+            for t in terms:
+                v = t.value
+                ok = t.kind == "RETURN" and isinstance(v, Agg) and len(v.fields) == 1 and isinstance(v.fields[0], EnumV) and K.concrete(v.fields[0].discr) == 1 \
+                    and is_self(v.fields[0].variants[1][0])
+                if not ok:
+                    res.must_be_unsat(list(t.state.pc), "Cons::into_iter does not start at the cell itself (%r)" % (v,), onm)
+
+
+def is_self(x):
+    return isinstance(x, Opaque) and x.label == "self"
+
+
 CLAIMS = [
+    Claim("c15_into_iter", "C15", "quick", claim_into_iter,
+          "the consuming iterator: Cons::into_iter starts at the cell itself; IntoIter::next from any cursor state: None when exhausted; "
+          "at a cell whose cdr is a pair (car, None) and the cursor moves to that next cell; otherwise (car, Some(cdr)) and the iterator is "
+          "exhausted - every element once, the tail attached to the last",
+          "arbitrary cell and cdr kind (one step from any state = any list length)", configs=("fast",), also=("C16",), confirm=("conswalk",)),
     Claim("c15_clone_protocol", "C15", "quick", claim_clone,
           "Cons::clone, one loop step from an arbitrary cursor state (loop cut; cells as aggregates in the engine's heap, accessors "
           "and the clone of one car / one non-pair tail as labelled stubs) plus the base case: the copy starts as (clone(self.car) . ()) "
